@@ -32,19 +32,6 @@ Definition statuses_equiv (a b : list (list N * status)) : Prop :=
 Definition single_inv (c : cfg) (t : node) : list (list N * pkg) :=
   match run c [t] with ROk inv _ _ => inv | _ => [] end.
 
-(* ... and as it is: the shared context's cumulative inventory is appended once per root *)
-Fixpoint cumul {A} (acc : list A) (l : list (list A)) : list A :=
-  match l with
-  | [] => []
-  | x :: l' => (acc ++ x) ++ cumul (acc ++ x) l'
-  end.
-
-Definition is_nil {A} (l : list A) : bool := match l with [] => true | _ => false end.
-
-(* domain on which the root loop reports no package twice: every root but the last yields no package *)
-Definition dom_multiroot (c : cfg) (roots : list node) : bool :=
-  forallb is_nil (removelast (map (single_inv c) roots)).
-
 Definition run_inv (r : rres) : list (list N * pkg) :=
   match r with ROk inv _ _ => inv | RErr inv _ _ => inv | RPanic _ _ => [] end.
 Definition run_statuses (r : rres) : list (list N * status) :=
